@@ -256,6 +256,48 @@ Theorem C15_sessions_are_handed_out : forall (key bkey data : Type) (O : oracles
   sessions (fst (hub_run O ks h ops)) = live_from O (sessions h) (snd (hub_run O ks h ops)).
 Proof. exact @sessions_are_handed_out. Qed.
 
+(* ---- roles at the hub ---------------------------------------------------------------------------------------
+   The hub's own decoders (decodePrivateSessionId / decodePublicSessionId: op HDecode; every lookup, the
+   resume branch of hello and the recipients of messages go through them) answer for a role exactly what
+   the codec answers for that role, in every cache state the invariant allows: *)
+Theorem C15_hub_decode_sound : forall (key bkey data : Type) (O : oracles key bkey data) ks r h id h' d,
+  cache_inv O ks h -> hub_step O ks h (HDecode r id) = (h', HData d) -> decode O r ks id = Ok d.
+Proof. exact @hub_decode_step_sound. Qed.
+Theorem C15_hub_decode_complete : forall (key bkey data : Type) (O : oracles key bkey data) ks r h id d,
+  cache_inv O ks h -> decode O r ks id = Ok d -> snd (hub_step O ks h (HDecode r id)) = HData d.
+Proof. exact @hub_decode_step_complete. Qed.
+Theorem C15_hub_decode_refuses : forall (key bkey data : Type) (O : oracles key bkey data) ks r h id,
+  cache_inv O ks h -> (forall d, decode O r ks id <> Ok d) -> snd (hub_step O ks h (HDecode r id)) = HNoData.
+Proof. exact @hub_decode_step_refuses. Qed.
+(* over every history of registrations, removals, lookups, resumes and decodes under either role,
+   with any number and size of caches (evictions included): *)
+Theorem C15_hub_decode_history : forall (key bkey data : Type) (O : oracles key bkey data) ks ops n size r id d,
+  Forall (wf_hop O ks) ops ->
+  In (HDecode r id, HData d) (snd (hub_run O ks (hub_init n size) ops)) -> decode O r ks id = Ok d.
+Proof. intros. eapply hub_run_decode_sound; eauto. apply cache_inv_init. Qed.
+(* hence "a public id never decodes as a private (resume) id nor the reverse" at the hub: a string
+   that the hub decodes under both roles anywhere in a history -- for instance right after the
+   registration that put both ids of the session into the caches -- carries correct MACs of two
+   different messages; and the swap (an id and its reversal) needs ONE MAC for two different messages *)
+Theorem C15_hub_role_separation : forall (key bkey data : Type) (O : oracles key bkey data) ks ops n size s d d',
+  Forall (wf_hop O ks) ops ->
+  In (HDecode Private s, HData d) (snd (hub_run O ks (hub_init n size) ops)) ->
+  In (HDecode Public s, HData d') (snd (hub_run O ks (hub_init n size) ops)) ->
+  exists ts v ts' v',
+    s = id_string Private ts v (hmac O (hk ks) (mac_msg (role_name Private) ts v)) /\
+    s = id_string Public ts' v' (hmac O (hk ks) (mac_msg (role_name Public) ts' v')) /\
+    mac_msg (role_name Private) ts v <> mac_msg (role_name Public) ts' v'.
+Proof. intros. eapply hub_role_separation; eauto. apply cache_inv_init. Qed.
+Theorem C15_hub_role_separation_swap : forall (key bkey data : Type) (O : oracles key bkey data) ks ops n size s s' d d',
+  Forall (wf_hop O ks) ops ->
+  In (HDecode Private s, HData d) (snd (hub_run O ks (hub_init n size) ops)) ->
+  In (HDecode Public s', HData d') (snd (hub_run O ks (hub_init n size) ops)) ->
+  reverse_id s = Some s' \/ reverse_id s' = Some s ->
+  exists ts v,
+    hmac O (hk ks) (mac_msg (role_name Private) ts v) = hmac O (hk ks) (mac_msg (role_name Public) ts v) /\
+    mac_msg (role_name Private) ts v <> mac_msg (role_name Public) ts v.
+Proof. intros. eapply hub_role_separation_swap; eauto. apply cache_inv_init. Qed.
+
 Print Assumptions C15_b64_roundtrip.
 Print Assumptions C15_b64_decoder_ignores_line_breaks.
 Print Assumptions C15_b64_line_break_inserted.
@@ -291,3 +333,28 @@ Print Assumptions C15_cache_sound_initially.
 Print Assumptions C15_cache_transparent.
 Print Assumptions C15_hub_lookup_sound.
 Print Assumptions C15_sessions_are_handed_out.
+Print Assumptions C15_hub_decode_sound.
+Print Assumptions C15_hub_decode_complete.
+Print Assumptions C15_hub_decode_refuses.
+Print Assumptions C15_hub_decode_history.
+Print Assumptions C15_hub_role_separation.
+Print Assumptions C15_hub_role_separation_swap.
+
+From Verif Require Import corr.Run_C15.
+(* the trace predicate of the hub cases on the decoders: an id handed out decodes under its own role
+   to the registered data; the same string under the other role, and a text never handed out, must
+   not decode (step 3 is where the first trace goes wrong: the public id answered as a private one) *)
+Example C15_P_hub_roles :
+  let reg := (XRegister (cd 1%N 1%N) "1"%string [] "1"%string [] no_answers, WIds "PRIV"%string "PUB"%string) in
+  let dec r which ob := (XDecode r (SMut 0 which MId) 0%N no_answers, ob) in
+  P_hub_go 0 [] [] [] [reg; dec Private Private (WData (cd 1%N 1%N)); dec Public Public (WData (cd 1%N 1%N));
+                       dec Private Public (WData (cd 1%N 1%N))] = Some 3%nat /\
+  P_hub_go 0 [] [] [] [reg; dec Public Private (WData (cd 1%N 1%N))] = Some 1%nat /\
+  P_hub_go 0 [] [] [] [reg; dec Private Private (WData (cd 1%N 2%N))] = Some 1%nat /\
+  P_hub_go 0 [] [] [] [reg; dec Private Private WNoData] = Some 1%nat /\
+  P_hub_go 0 [] [] [] [reg; dec Private Private (WData (cd 1%N 1%N)); dec Public Public (WData (cd 1%N 1%N));
+                       dec Private Public WNoData; dec Public Private WNoData;
+                       (XRemove 1%N, WNone); dec Private Private (WData (cd 1%N 1%N)); dec Public Private WNoData;
+                       (XDecode Private (SLit "x"%string) 0%N no_answers, WNoData)] = None.
+Proof. vm_compute. repeat split; reflexivity. Qed.
+
